@@ -30,6 +30,7 @@ type HarnessSpec struct {
 	Solver   string            `json:"solver"`
 	Stubs    map[string]string `json:"stubs"` // target function -> harness function (pkg-relative "pkg.Func")
 	Note     string            `json:"note"`
+	Witnesses int              `json:"witnesses"` // >0: replay up to this many complete paths natively (all of them in order)
 }
 
 type Spec struct {
@@ -263,6 +264,9 @@ func cmdCheck(args []string) int {
 				e.wantWitness = 3
 				if tier == "thorough" {
 					e.wantWitness = 8
+				}
+				if h.Witnesses > 0 {
+					e.wantWitness, e.witnessAll = h.Witnesses, true
 				}
 			}
 			t1 := time.Now()
